@@ -2,6 +2,7 @@ import OrixProofs.Properties.C02
 import OrixProofs.Lemmas.ConvOmCode
 import OrixProofs.Lemmas.ConvQuEuCode
 import OrixProofs.Lemmas.ConvAx
+import OrixProofs.Lemmas.ConvRo
 import OrixProofs.Lemmas.ConvHo
 /-
 C01 — rotation representations convert consistently and round-trip.
@@ -196,6 +197,26 @@ theorem fromAxesAngles_degrees_rescales (n : Vec3 ℝ) (w : ℝ) :
     Conv.fromAxesAngles true n w = Conv.fromAxesAngles false n (w * (Real.pi / 180)) := by
   simp [Conv.fromAxesAngles, Conv.deg2rad]
 
+/-- plain Rodrigues vectors through the public wrappers (`to_rodrigues()` = `axis · tan(angle/2)` with the
+`axis` / `angle` properties, `from_rodrigues(ρ)` = `from_axes_angles(ρ, 2·arctan‖ρ‖)`): round trip for every unit
+quaternion with `0 < a < 1` whose angle is outside `ax2qu`'s `1e-8` band; the vector is `(b, c, d)/a` -/
+theorem toRodrigues_eq (q : Quat ℝ) (h : Quat.normSq q = 1) (ha : 0 < q.a) (ha1 : q.a < 1) :
+    Conv.toRodrigues q = ⟨q.b / q.a, q.c / q.a, q.d / q.a⟩ := toRodrigues_unit q h ha ha1
+theorem fromRodrigues_toRodrigues (q : Quat ℝ) (h : Quat.normSq q = 1) (ha : 0 < q.a) (ha1 : q.a < 1)
+    (g : 1 / 10 ^ 8 ≤ 2 * Real.arctan (Real.sqrt (1 - q.a ^ 2) / q.a)) :
+    Conv.fromRodrigues (Conv.toRodrigues q) = q := Orix.fromRodrigues_toRodrigues q h ha ha1 g
+
+/-- … and for a negative scalar part (`Quaternion.axis` flips the axis for every `a < 0`, as repaired): the
+Rodrigues vector is that of `−q`, so the round trip returns `−q`, the same rotation -/
+theorem fromRodrigues_toRodrigues_neg (q : Quat ℝ) (h : Quat.normSq q = 1) (ha : q.a < 0) (ha1 : -1 < q.a)
+    (g : 1 / 10 ^ 8 ≤ 2 * Real.arctan (Real.sqrt (1 - q.a ^ 2) / -q.a)) :
+    Conv.fromRodrigues (Conv.toRodrigues q) = Quat.neg q := by
+  have hn : Quat.normSq (Quat.neg q) = 1 := by rw [normSq_neg]; exact h
+  rw [toRodrigues_neg q h ha ha1]
+  refine Orix.fromRodrigues_toRodrigues (Quat.neg q) hn (by simp only [Quat.neg]; linarith)
+    (by simp only [Quat.neg]; linarith) ?_
+  simpa [Quat.neg] using g
+
 /-- `ro2ax ∘ ax2ro = id` for unit axes and angles in `[2·10⁻⁸, π − 10⁻³]` (code-shaped kernels) -/
 theorem ro2ax_ax2ro (n : Vec3 ℝ) (w : ℝ) (hn : n.x * n.x + n.y * n.y + n.z * n.z = 1)
     (h0 : 2 / 10 ^ 8 ≤ w) (h1 : w ≤ Real.pi - 1 / 10 ^ 3) :
@@ -227,10 +248,9 @@ theorem qu2ho_too_long_of_neg (q : Quat ℝ) (h : Quat.normSq q = 1) (h1 : -1 < 
     3 * Real.pi / 4 < (Vec3.norm (Conv.toHomochoric q)) ^ 3 := by
   rw [Conv.toHomochoric, unit_of_normSq_one q h]; exact qu2ho_norm_gt_of_neg q h h1 h2
 
-/-- the homochoric *inverse* of the code maps every vector shorter than `10⁻⁴` (rotation angle below `2·10⁻⁴`) to
-the identity, because `ho2ax_single` compares the squared length with `1e-8` (known finding; the inverse is
-otherwise a fitted polynomial and tied by correspondence only) -/
-theorem fromHomochoric_small (h : Vec3 ℝ) (hs : h.x * h.x + h.y * h.y + h.z * h.z < 1 / 10 ^ 8) :
+/-- the homochoric *inverse* of the code (otherwise a fitted polynomial, tied by correspondence only) maps vectors of
+squared length below `1e-16` (rotation angle below `2·10⁻⁸`) to the identity -/
+theorem fromHomochoric_small (h : Vec3 ℝ) (hs : h.x * h.x + h.y * h.y + h.z * h.z < 1 / 10 ^ 16) :
     Conv.ho2ax h = ⟨⟨0, 0, 1⟩, 0⟩ := ho2ax_small h hs
 
 /-! ## non-vacuity: the hypotheses are met by concrete rotations -/
